@@ -21,8 +21,10 @@ import (
 
 // Cmd is one line of the child's stdin.
 type Cmd struct {
-	Op   string    `json:"op"` // step | export | quit
-	Step *c01.Step `json:"step,omitempty"`
+	Op    string     `json:"op"` // step | wave | export | quit
+	Step  *c01.Step  `json:"step,omitempty"`
+	Index int        `json:"index"`           // index of the step (of the first step of a wave) in the submitted sequence
+	Steps []c01.Step `json:"steps,omitempty"` // wave: single requests sent concurrently
 }
 
 // Released is the marker the child writes, with one write(2), the instant a signature has left the
@@ -96,7 +98,57 @@ func ChildMain() {
 	emit("READY", map[string]int{})
 	sc := bufio.NewScanner(os.Stdin)
 	sc.Buffer(make([]byte, 1<<20), 1<<24)
-	stepNo := 0
+	var outMu sync.Mutex
+	doStep := func(s *c01.Step, stepNo int) {
+		var states []string
+		var rel []Released
+		switch s.Kind {
+		case "attest":
+			e := s.Entries[0]
+			r := st.Attest(c01.Client, "", vkit.TargetPadded(w.Accounts[e.Key], e.ByKey, e.Pad), s.ViaGRPC, &e.Att)
+			states = []string{r.State}
+			if r.Released() {
+				a := e.Att
+				rel = append(rel, Released{Step: stepNo, Pos: 0, Key: e.Key, Att: &a})
+			}
+		case "batch":
+			ts := make([]vkit.Target, len(s.Entries))
+			as := make([]*vkit.Att, len(s.Entries))
+			for i := range s.Entries {
+				ts[i] = vkit.TargetPadded(w.Accounts[s.Entries[i].Key], s.Entries[i].ByKey, s.Entries[i].Pad)
+				as[i] = &s.Entries[i].Att
+			}
+			rs := st.AttestBatch(c01.Client, "", ts, s.ViaGRPC, as)
+			for i, r := range rs {
+				states = append(states, r.State)
+				if r.Released() && i < len(s.Entries) {
+					a := s.Entries[i].Att
+					rel = append(rel, Released{Step: stepNo, Pos: i, Key: s.Entries[i].Key, Att: &a})
+				}
+			}
+		case "propose":
+			r := st.Propose(c01.Client, "", vkit.TargetPadded(w.Accounts[s.Key], s.ByKey, s.Pad), s.ViaGRPC, s.Prop)
+			states = []string{r.State}
+			if r.Released() {
+				p := *s.Prop
+				rel = append(rel, Released{Step: stepNo, Pos: 0, Key: s.Key, Prop: &p})
+			}
+		case "restart":
+			if err := st.Restart(); err != nil {
+				emit("STARTFAILED", map[string]string{"error": err.Error()})
+				os.Exit(0)
+			}
+			states = []string{"restarted"}
+		}
+		point("return") // signatures exist in memory but have not left the process
+		outMu.Lock()
+		defer outMu.Unlock()
+		for i := range rel {
+			emit("RELEASED", &rel[i])
+			point("released")
+		}
+		emit("RESULT", map[string]any{"step": stepNo, "states": states})
+	}
 	for sc.Scan() {
 		var cmd Cmd
 		if err := json.Unmarshal(sc.Bytes(), &cmd); err != nil {
@@ -116,54 +168,17 @@ func ChildMain() {
 				emit("EXPORT", exp)
 			}
 		case "step":
-			s := cmd.Step
-			var states []string
-			var rel []Released
-			switch s.Kind {
-			case "attest":
-				e := s.Entries[0]
-				r := st.Attest(c01.Client, "", vkit.TargetPadded(w.Accounts[e.Key], e.ByKey, e.Pad), s.ViaGRPC, &e.Att)
-				states = []string{r.State}
-				if r.Released() {
-					a := e.Att
-					rel = append(rel, Released{Step: stepNo, Pos: 0, Key: e.Key, Att: &a})
-				}
-			case "batch":
-				ts := make([]vkit.Target, len(s.Entries))
-				as := make([]*vkit.Att, len(s.Entries))
-				for i := range s.Entries {
-					ts[i] = vkit.TargetPadded(w.Accounts[s.Entries[i].Key], s.Entries[i].ByKey, s.Entries[i].Pad)
-					as[i] = &s.Entries[i].Att
-				}
-				rs := st.AttestBatch(c01.Client, "", ts, s.ViaGRPC, as)
-				for i, r := range rs {
-					states = append(states, r.State)
-					if r.Released() && i < len(s.Entries) {
-						a := s.Entries[i].Att
-						rel = append(rel, Released{Step: stepNo, Pos: i, Key: s.Entries[i].Key, Att: &a})
-					}
-				}
-			case "propose":
-				r := st.Propose(c01.Client, "", vkit.TargetPadded(w.Accounts[s.Key], s.ByKey, s.Pad), s.ViaGRPC, s.Prop)
-				states = []string{r.State}
-				if r.Released() {
-					p := *s.Prop
-					rel = append(rel, Released{Step: stepNo, Pos: 0, Key: s.Key, Prop: &p})
-				}
-			case "restart":
-				if err := st.Restart(); err != nil {
-					emit("STARTFAILED", map[string]string{"error": err.Error()})
-					os.Exit(0)
-				}
-				states = []string{"restarted"}
+			doStep(cmd.Step, cmd.Index)
+		case "wave":
+			var wg sync.WaitGroup
+			for i := range cmd.Steps {
+				wg.Add(1)
+				go func(i int) {
+					defer wg.Done()
+					doStep(&cmd.Steps[i], cmd.Index+i)
+				}(i)
 			}
-			point("return") // signatures exist in memory but have not left the process
-			for i := range rel {
-				emit("RELEASED", &rel[i])
-				point("released")
-			}
-			emit("RESULT", map[string]any{"step": stepNo, "states": states})
-			stepNo++
+			wg.Wait()
 		}
 	}
 	// stdin closed without quit
